@@ -61,14 +61,27 @@ KF_MODES = ["kf-destroy-queued-add", "kf-delete-queued-add", "kf-notrans-delete-
             "kf-vpsc-static-cycle-leak", "kf-topology-endnode-visibility-assert"]
 KF_TIMEOUT = {"kf-cola-makefeasible-hang": 15}
 
+# Round-6 findings (clusters, routing options, the rest of the public API): each has a deterministic replay step in
+# harness/c15.cpp (script form, see `struct Script`) and the main class stays away from it.  They are NOT in the default plan
+# until the lead has decided between a `fix:` commit and a known_findings.json entry (a step that crashes without a matching
+# entry is a VIOLATION); C15_PENDING_KF=1 adds them, C15_CLUSTER_PENALTY=1 adds the class `router-hist-cp` (clusters WITH a
+# cluster-crossing penalty, referencing cluster boundaries), which needs kf-cluster-crossings-overflow to be settled first.
+KF_PENDING = ["kf-split-free-dst-null", "kf-split-notrans-assert", "kf-transform-pins-set-order",
+              "kf-cluster-polyline-nonvertex-assert", "kf-cluster-refs-deleted-shape", "kf-merge-junction-doc-delete",
+              "kf-cluster-crossings-overflow", "kf-orth-zero-segment-penalty-assert",
+              "kf-nudge-common-endpoint-same-conn-assert", "kf-zero-nudging-distance-junction-assert",
+              "kf-merge-copied-end-pin-deleted", "kf-cluster-branching-midvertex-assert"]
+
 
 def plan(tier, seed, searching):
     base = ["--seed", str(seed), "--tier", tier, "--scale", "8" if searching else "1"]
     steps = [dict(hargs=base + ["--mode", "router"], label="router", timeout=3000),
              dict(hargs=base + ["--mode", "libs"], label="libs", timeout=3000)]
+    if os.environ.get("C15_CLUSTER_PENALTY"):
+        steps.append(dict(hargs=base + ["--mode", "router-cp"], label="router-cp", timeout=3000))
     if os.environ.get("C15_SKIP_KF"):        # (debug) main classes only
         return steps
-    for m in KF_MODES:
+    for m in KF_MODES + (KF_PENDING if os.environ.get("C15_PENDING_KF") else []):
         steps.append(dict(hargs=["--mode", m], label=m, timeout=KF_TIMEOUT.get(m, 120)))
     return steps
 
